@@ -478,8 +478,16 @@ IdCidBijective == /\ MhPrefixIs4
                   /\ stage = "cidback" => /\ back = case.id
                                           /\ cidw = CidOf(back)
 
+\* The identifier BYTES alone do not name a request: a sample (h, r, c) and a legacy range identifier
+\* (h, from = r, to = c) have the same 12 bytes.  The CID framing (codec, multihash code) tells them apart,
+\* so anything keyed per request (the Bitswap hasher registry) must be keyed by the CID.
+SameBytesDifferentCid ==
+    LET sm == [t |-> "sample", h |-> N(7), r |-> N(1), c |-> N(3)]
+        rg == [t |-> "rangev0", h |-> N(7), from |-> N(1), to |-> N(3)]
+    IN Enc(sm) = Enc(rg) /\ CidOf(sm) # CidOf(rg)
+
 \* static facts the formats rely on
-Static == MhPrefixIs4 /\ ProtocolMaxFits16
+Static == MhPrefixIs4 /\ ProtocolMaxFits16 /\ SameBytesDifferentCid
 
 (* ---- case emission (returns TRUE; listed as an invariant) ---------------- *)
 Emit == Terminal =>
